@@ -43,7 +43,15 @@ Copy(a, c) ==
   /\ val' = [val EXCEPT ![c] = val[a]] /\ lrs' = [lrs EXCEPT ![c] = lrs[a]]
   /\ nmut' = nmut + 1 /\ act' = [op |-> "copy", a |-> a, c |-> c]
 
-Next == (\E a \in 1..NA, h \in 1..H, d \in {"shrink", "grow"} : MutateHP(a, h, d)) \/ (\E a, c \in 1..NA : Copy(a, c))
+\* the user (a schedule, a sweep) assigns a hyperparameter that is not a learning rate: it becomes the agent's current value,
+\* the base of the next mutation
+Assign(a, h, x) ==
+  /\ a \in 1..NA /\ h \in 1..H /\ ~Cfg[h].islr /\ x \in {Cfg[h].min, Cfg[h].max}
+  /\ val' = [val EXCEPT ![a][h] = x] /\ UNCHANGED lrs
+  /\ nmut' = nmut + 1 /\ act' = [op |-> "set", a |-> a, h |-> h]
+
+Next == \/ (\E a \in 1..NA, h \in 1..H, d \in {"shrink", "grow"} : MutateHP(a, h, d)) \/ (\E a, c \in 1..NA : Copy(a, c))
+        \/ (\E a \in 1..NA, h \in 1..H : \E x \in {Cfg[h].min, Cfg[h].max} : Assign(a, h, x))
 Spec == Init /\ [][Next]_vars
 
 (* Properties *)
